@@ -28,6 +28,10 @@ func Property(id string) *PropSpec { return props[id] }
 func init() {
 	props["C01"] = &PropSpec{ID: "C01", Engines: []string{"EDGE"}, Rules: []string{"EDGE"},
 		Explanation: "wip"}
+	props["C03"] = &PropSpec{ID: "C03", Engines: []string{"PRIO"}, Rules: []string{"PRIO-N", "PRIO-T", "PRIO-W", "PRIO-P", "PRIO-D", "INPUT"},
+		Explanation: "wip"}
+	props["C07"] = &PropSpec{ID: "C07", Engines: []string{"PRIO"}, Rules: []string{"PRIO-W", "PRIO-D", "PRIO-P"},
+		Explanation: "wip"}
 	props["C04"] = &PropSpec{ID: "C04", Engines: []string{"ERRFLOW"}, Rules: []string{"ERRFLOW"},
 		Explanation: "wip"}
 	props["C09"] = &PropSpec{ID: "C09", Engines: []string{"EXEC", "SHARED"}, Rules: []string{"EXEC", "SHARED", "ALIAS"},
